@@ -1,4 +1,5 @@
 import CqlVerif.Model.Events
+import CqlVerif.Model.Handshake
 /-!
 # C14 — Schema-change events reach every registered client exactly once, and only those
 -/
@@ -156,5 +157,147 @@ theorem hand_over_conserves (cap : Nat) (as : List QAct) :
 
 /-- non-vacuity: a channel of capacity 1, three events, the loop slow: all three come out, in order -/
 example : (qrun 1 [.emit 1, .emit 2, .emit 3, .put, .put, .put, .get, .put, .get, .put, .get]).handled = [1, 2, 3] := by decide
+
+end CqlVerif.C14
+
+/-! ### The control connection registers for events, however the backend's handshake goes -/
+namespace CqlVerif.C14
+open CqlVerif.Handshake
+
+/-- a successful outcome came with REGISTER as the last frame sent -/
+def EndsRegistered (r : List Sent × Outcome) : Prop := ∀ v, r.2 = .ok v → r.1.getLast? = some .register
+
+theorem register_ends (v : Nat) (sent : List Sent) (rest : List Srv) : EndsRegistered (register v sent rest) := by
+  intro w _
+  cases rest with
+  | nil => simp [register]
+  | cons h t => cases h <;> simp [register]
+
+theorem finish_ends (v : Nat) (sent : List Sent) (rest : List Srv) : EndsRegistered (finish v true sent rest) := by
+  simp only [finish, ↓reduceIte]; exact register_ends v sent rest
+
+theorem challenge_ends (v : Nat) (sent : List Sent) (ps : Bool) (rest : List Srv) : EndsRegistered (challenge v true sent ps rest) := by
+  intro w hw
+  unfold challenge at hw ⊢
+  cases ps with
+  | false => simp at hw
+  | true =>
+    simp only [Bool.not_true, Bool.false_eq_true, ↓reduceIte] at hw ⊢
+    cases rest with
+    | nil => simp at hw
+    | cons h t => cases h <;> first | (simp at hw; done) | exact finish_ends v _ t w hw
+
+theorem initialResponse_ends (v : Nat) (sent : List Sent) (dse : Bool) (rest : List Srv) :
+    EndsRegistered (initialResponse v true sent dse rest) := by
+  intro w hw
+  unfold initialResponse at hw ⊢
+  cases rest with
+  | nil => simp at hw
+  | cons h t =>
+    cases h with
+    | authChallenge ps => exact challenge_ends v _ ps t w hw
+    | authSuccess => exact finish_ends v _ t w hw
+    | _ => simp at hw
+
+theorem startup_ends (fuel : Nat) : ∀ (v : Nat) (hasAuth : Bool) (sent : List Sent) (srv : List Srv),
+    EndsRegistered (startup fuel v true hasAuth sent srv) := by
+  induction fuel with
+  | zero => intro v a sent srv w hw; simp [startup] at hw
+  | succ n ih =>
+    intro v a sent srv w hw
+    unfold startup at hw ⊢
+    cases srv with
+    | nil => simp at hw
+    | cons h t =>
+      cases h with
+      | ready => exact finish_ends v _ t w hw
+      | authenticate dse =>
+        cases a with
+        | true => exact initialResponse_ends v _ dse t w hw
+        | false => simp at hw
+      | versionError =>
+        simp only at hw ⊢
+        cases hs : stepDown v with
+        | none => simp [hs] at hw
+        | some v' => simp only [hs] at hw ⊢; exact ih v' a _ t w hw
+      | _ => simp at hw
+
+/-- **control_handshake_registers** — for every server script (READY at once, any authenticator,
+with or without a challenge round trip, any number of version refusals first, errors, silence) and
+every wanted version: if the handshake of a connection that has an event handler succeeds, the last
+frame the proxy sent on it is REGISTER - there is no way through the handshake that skips it -/
+theorem control_handshake_registers (version : Nat) (hasAuth : Bool) (srv : List Srv) :
+    EndsRegistered (handshake version true hasAuth srv) := startup_ends 6 version hasAuth [] srv
+
+/-- non-vacuity: DSE authentication with a challenge, after two version refusals; and a pooled
+connection (no handler) never registers -/
+example : handshake 66 true true [.versionError, .versionError, .authenticate true, .authChallenge true, .authSuccess, .ready]
+    = ([.startup 66, .startup 65, .startup 4, .authResponse true, .authResponse false, .register], .ok 4) := by decide
+example : handshake 4 false true [.authenticate false, .authSuccess] = ([.startup 4, .authResponse false], .ok 4) := by decide
+
+/-- **pooled_handshake_never_registers** — a connection without an event handler (every pooled
+connection) never sends REGISTER, whatever the server does -/
+theorem pooled_handshake_never_registers (version : Nat) (hasAuth : Bool) (srv : List Srv) :
+    Sent.register ∉ (handshake version false hasAuth srv).1 := by
+  have hfin : ∀ v (sent : List Sent) rest, Sent.register ∉ sent → Sent.register ∉ (finish v false sent rest).1 := by
+    intro v sent rest h; simpa [finish] using h
+  have hch : ∀ v (sent : List Sent) ps rest, Sent.register ∉ sent → Sent.register ∉ (challenge v false sent ps rest).1 := by
+    intro v sent ps rest h
+    unfold challenge
+    cases ps with
+    | false => simpa using h
+    | true =>
+      simp only [Bool.not_true, Bool.false_eq_true, ↓reduceIte]
+      have h' : Sent.register ∉ sent ++ [Sent.authResponse false] := by simp [h]
+      cases rest with
+      | nil => exact h'
+      | cons x t => cases x <;> first | exact h' | exact hfin v _ t h'
+  have hin : ∀ v (sent : List Sent) dse rest, Sent.register ∉ sent → Sent.register ∉ (initialResponse v false sent dse rest).1 := by
+    intro v sent dse rest h
+    unfold initialResponse
+    have h' : Sent.register ∉ sent ++ [Sent.authResponse dse] := by simp [h]
+    cases rest with
+    | nil => exact h'
+    | cons x t =>
+      cases x with
+      | authChallenge ps => exact hch v _ ps t h'
+      | authSuccess => exact hfin v _ t h'
+      | _ => exact h'
+  have hst : ∀ fuel v (sent : List Sent) srv, Sent.register ∉ sent → Sent.register ∉ (startup fuel v false hasAuth sent srv).1 := by
+    intro fuel
+    induction fuel with
+    | zero => intro v sent srv h; simpa [startup] using h
+    | succ n ih =>
+      intro v sent srv h
+      unfold startup
+      have h' : Sent.register ∉ sent ++ [Sent.startup v] := by simp [h]
+      cases srv with
+      | nil => exact h'
+      | cons x t =>
+        cases x with
+        | ready => exact hfin v _ t h'
+        | authenticate dse =>
+          cases hasAuth with
+          | true => exact hin v _ dse t h'
+          | false => exact h'
+        | versionError =>
+          simp only
+          cases hs : stepDown v with
+          | none => exact h'
+          | some v' => exact ih v' _ t h'
+        | _ => exact h'
+  exact hst 6 version [] srv (by simp)
+
+/-- the version reported is one the proxy proposed, and it never goes below v2 -/
+theorem stepDown_floor (v w : Nat) (h : stepDown v = some w) (hv : 2 ≤ v) : 2 ≤ w := by
+  unfold stepDown at h
+  split at h
+  · cases h; omega
+  · cases h; omega
+  · cases h
+  · rename_i h66 h65 h2
+    cases h
+    have : v ≠ 2 := fun e => h2 e
+    omega
 
 end CqlVerif.C14
